@@ -59,11 +59,33 @@ def record(tier):
         shutil.rmtree(tmp, ignore_errors=True)
 
 
-def run_suite(out, tier, enforce, prop):
+def record_async(tier):
+    """Start recording in a thread; returns a function that waits for and
+    returns (traces, summary) - or raises what record() raised."""
+    import threading
+    box = {}
+
+    def work():
+        try:
+            box['v'] = record(tier)
+        except BaseException as ex:
+            box['e'] = ex
+    th = threading.Thread(target=work)
+    th.start()
+
+    def wait():
+        th.join()
+        if 'e' in box:
+            raise box['e']
+        return box['v']
+    return wait
+
+
+def run_suite(out, tier, enforce, prop, recorded=None):
     """enforce / prop: the clauses of the calling property (as in
     core_driver.run_programs): C01 'wf', C05 'iso', C02-C04/C06 'val' for
     their own steps."""
-    traces, summary = record(tier)
+    traces, summary = recorded if recorded is not None else record(tier)
     if not traces:
         raise Machinery('no call of the test suite was recorded')
     if 'val' in enforce:
